@@ -9,7 +9,10 @@ CONSTANTS N,          \* intervals on 0..N
           GeomStride   \* take every GeomStride-th catalogue pair (1 = all)
 VARIABLES c, ph, res
 
-Cat == Catalogue(FMAXT)
+\* the shared catalogue plus line strings that are NOT monotone in time (legal: only first time <= last time is required):
+\* interior vertices before the first and after the last vertex, and a contour that returns to its start time
+Cat == Catalogue(FMAXT) \o <<G("LineString", <<<<3, 1>>, <<1, 2>>, <<6, 3>>, <<4, 4>>>>),
+                             G("LineString", <<<<2, 0>>, <<5, 2>>, <<0, 4>>, <<2, 1>>>>)>>
 Intervals == {<<a, b>> : a \in 0..N, b \in 0..N} \cap {i \in (0..N) \X (0..N) : i[1] <= i[2]}
 AbsOpts == {<<>>} \cup {<<k>> : k \in -1..3}
 RelOpts == {<<>>} \cup {<<<<p, 4>>>> : p \in -1..5}
@@ -23,8 +26,11 @@ IvCases   == {[kind |-> "iv", a |-> a, b |-> b, abs |-> t[1], rel |-> t[2]] : a 
 \* (anything memoised on the first object would travel along); the required outcome does not depend on it
 GeomCases == {[kind |-> k, i |-> i, j |-> j, abs |-> t[1], rel |-> t[2], prov |-> p] :
                  k \in {"time", "freq"}, i \in 1..Len(Cat), j \in 1..Len(Cat), t \in GThresh, p \in {"fresh", "derived"}}
+\* clips may start BEFORE the recording (negative start time is legal for a Clip: padded clips); fresh geometries only there
 ClipCases == {[kind |-> "clip", i |-> i, clip |-> cl, m |-> m, prov |-> p] :
                  i \in 1..Len(Cat), cl \in {x \in (0..6) \X (0..6) : x[1] <= x[2]}, m \in -1..2, p \in {"fresh", "derived"}}
+             \cup {[kind |-> "clip", i |-> i, clip |-> cl, m |-> m, prov |-> "fresh"] :
+                 i \in 1..Len(Cat), cl \in {x \in (-2..-1) \X (-1..6) : x[1] <= x[2]}, m \in -1..2}
 
 \* the case as the binder sees it (geometries written out)
 Concrete(k) ==
